@@ -2600,6 +2600,7 @@ impl<'a> Socket<'a> {
         };
 
         let mut is_zero_window_probe = false;
+        let mut is_fast_retransmit = false;
 
         match self.state {
             // We transmit an RST in the CLOSED state. If we ended up in the CLOSED state
@@ -2656,6 +2657,7 @@ impl<'a> Socket<'a> {
                     repr.payload = self.tx_buffer.get_allocated(0, size);
 
                     self.pending_fast_retransmit = false;
+                    is_fast_retransmit = true;
 
                     0
                 } else {
@@ -2770,7 +2772,15 @@ impl<'a> Socket<'a> {
         // to not waste time waiting for the retransmit timer on packets that we know
         // for sure will not be successfully transmitted.
         ip_repr.set_payload_len(repr.buffer_len());
-        emit(cx, (ip_repr, repr))?;
+        if let Err(err) = emit(cx, (ip_repr, repr)) {
+            if is_fast_retransmit {
+                // The fast retransmission did not leave the device, and its timer has
+                // already been cleared: do not leave the unacknowledged data without one.
+                let rto = self.rtte.retransmission_timeout();
+                self.timer.set_for_retransmit(cx.now(), rto);
+            }
+            return Err(err);
+        }
 
         // We've sent something, whether useful data or a keep-alive packet, so rewind
         // the keep-alive timer.
